@@ -36,6 +36,12 @@ Step ==
         /\ PushEnd /\ pend' = eres /\ UNCHANGED <<l, div, taint, devAll>>
      ELSE IF ev.op \in {"push", "repush"} THEN      \* after PushEnd: unreachable (pend is set)
         /\ FALSE
+     ELSE IF ev.op = "mine" /\ ptr # ltip THEN
+        \* the miner first walks the state to the ledger tip (a silent step when it succeeds; a failed walk fails the round)
+        /\ Tick
+        /\ pend' = (IF hist'[Len(hist')].res = "ok" THEN "" ELSE "fail")
+        /\ devAll' = devAll \cup dev' /\ taint' = (dev' # {})
+        /\ UNCHANGED <<l, div>>
      ELSE
         /\ CASE ev.op = "submit"  -> (eres = "" /\ SubmitAny(ev.t, ev.res) /\ UNCHANGED <<insH, insB, todo, eres>>)
              [] ev.op = "mine"    -> (eres = "" /\ Mine(IF Range(ev.txs) \subseteq Packable /\ NoDupSeq(ev.txs) THEN ev.txs ELSE PrefixFits(GoodOrder(Packable))) /\ UNCHANGED <<insH, insB, todo, eres>>)
